@@ -260,6 +260,8 @@ fn cell_alphabet() -> Vec<Data> {
         Data::Int(9_007_199_254_740_993),
         // a fraction below one is still not zero
         Data::Float(0.5),
+        // the title-case spelling of a boolean string
+        Data::String("False".into()),
     ]
 }
 
